@@ -515,12 +515,18 @@ class Ctx:
         # wall-clock timeout.  A wall-clock timeout costs one timer thread per
         # check (~5 ms), which dominates contracts with many tiny linear queries.
         self.rlimit = rlimit
+        self.timeout_ms = timeout_ms
+        # Budgets are z3 *resource* limits (deterministic, independent of how
+        # busy the machine is), scaled from the nominal timeout: ~2e7 units is
+        # about one second of z3 on an idle core.  The wall-clock timeout is
+        # only a safety net (12x the nominal value).
+        self.unit = 20000 * timeout_ms            # rlimit units of the nominal budget
         if rlimit:
             self.solver.set("rlimit", int(rlimit))
         else:
-            self.solver.set("timeout", timeout_ms)
+            self.solver.set("rlimit", int(self.unit))
+            self.solver.set("timeout", 12 * timeout_ms)
         self.solver.set("random_seed", seed)
-        self.timeout_ms = timeout_ms
         self.nfresh = 0
         self.leaves = {}          # name -> z3 const (inputs, for models)
         self.obligations = []
@@ -534,8 +540,9 @@ class Ctx:
 
     # -- solver plumbing
     def _set_timeout(self, ms):
+        """budget of the incremental solver, given as a nominal time"""
         if not self.rlimit:
-            self.solver.set("timeout", ms)
+            self.solver.set("rlimit", int(20000 * ms))
 
     def _check(self, *extra):
         t0 = time.time()
@@ -562,7 +569,8 @@ class Ctx:
         """fresh non-incremental z3 solver, then the z3-new / cvc5 CLIs"""
         t0 = time.time()
         s = z3.Solver()
-        s.set("timeout", max(2000, self.timeout_ms // 2))
+        s.set("rlimit", int(self.unit))
+        s.set("timeout", 12 * self.timeout_ms)
         for a in self.solver.assertions():
             s.add(a)
         s.add(neg)
@@ -573,11 +581,14 @@ class Ctx:
         if r != z3.unknown:
             self.backend_used["z3-fresh"] = self.backend_used.get("z3-fresh", 0) + 1
             return r, m
-        r2 = _cli_portfolio(s.to_smt2(), self.timeout_ms)
+        r2, vals = _cli_portfolio(s.to_smt2(), self.timeout_ms, list(self.leaves))
         self.solver_time += time.time() - t0
         if r2 == "unsat":
             self.backend_used["cli"] = self.backend_used.get("cli", 0) + 1
             return z3.unsat, None
+        if r2 == "sat" and vals is not None:
+            self.backend_used["cli"] = self.backend_used.get("cli", 0) + 1
+            return z3.sat, _DictModel(vals, self.leaves)
         return z3.unknown, None
 
     def _next(self):
@@ -684,6 +695,8 @@ class Ctx:
         return ob.status == "discharged"
 
     def _model_dict(self, m):
+        if isinstance(m, _DictModel):
+            return dict(m.vals)
         out = {}
         for nm, c in self.leaves.items():
             v = m.eval(c, model_completion=True)
@@ -707,30 +720,49 @@ class Ctx:
         return r != z3.unsat
 
 
-def _cli_portfolio(smt2, timeout_ms):
+class _DictModel:
+    """model obtained from a CLI solver: leaf name -> python value"""
+    def __init__(self, vals, leaves):
+        self.vals = {k: vals.get(k, 0) for k in leaves}
+
+
+def _cli_portfolio(smt2, timeout_ms, leaves=()):
     """Second opinion on an `unknown`: z3 5.x CLI and cvc5 on the same query.
-    Only `unsat` is used (a `sat` from here carries no model we can replay)."""
-    import subprocess, tempfile, os, shutil
+    Returns ("unsat", None) | ("sat", {leaf: value} | None) | ("unknown", None).
+    z3 is bounded by its resource limit (deterministic); cvc5 by wall clock."""
+    import subprocess, tempfile, os, shutil, re
     d = tempfile.mkdtemp(prefix="pyvc_q_", dir="/var/tmp")
     try:
         p = os.path.join(d, "q.smt2")
+        gv = ""
+        if leaves:
+            gv = "(get-value (" + " ".join("|%s|" % n for n in leaves) + "))\n"
         with open(p, "w") as f:
-            f.write("(set-logic ALL)\n" + smt2 + "\n")
+            f.write("(set-option :produce-models true)\n(set-logic ALL)\n" + smt2 + "\n" + gv)
         secs = max(2, timeout_ms // 1000)
-        for cmd in (["z3-new", f"-T:{secs}", p],
-                    ["cvc5", f"--tlimit={secs * 1000}", "--nl-ext-tplanes", p]):
+        for cmd in (["z3-new", f"rlimit={20000 * timeout_ms}", f"-T:{12 * secs}", p],
+                    ["cvc5", f"--tlimit={3 * secs * 1000}", "--nl-ext-tplanes", p]):
             if shutil.which(cmd[0]) is None:
                 continue
             try:
-                out = subprocess.run(cmd, capture_output=True, text=True, timeout=secs + 5).stdout
+                out = subprocess.run(cmd, capture_output=True, text=True, timeout=12 * secs + 5).stdout
             except Exception:
                 continue
-            first = out.strip().splitlines()[0] if out.strip() else ""
+            lines = out.strip().splitlines()
+            first = lines[0].strip() if lines else ""
             if first == "unsat":
-                return "unsat"
+                return "unsat", None
             if first == "sat":
-                return "sat"
-        return "unknown"
+                vals = {}
+                txt = "\n".join(lines[1:])
+                for m in re.finditer(r"\(\|?([^\s|()]+)\|?\s+(\(-\s*\d+\)|-?\d+|true|false)\)", txt):
+                    v = m.group(2)
+                    if v in ("true", "false"):
+                        vals[m.group(1)] = (v == "true")
+                    else:
+                        vals[m.group(1)] = int(v.replace("(", "").replace(")", "").replace(" ", ""))
+                return "sat", (vals if leaves else None)
+        return "unknown", None
     finally:
         shutil.rmtree(d, ignore_errors=True)
 
